@@ -31,7 +31,12 @@ def build(tier):
     obs.append(e2obs.ob_munch("C02", D, only=lambda tn: tn.startswith(("line_comment", "bracket_comment", "space", "newline", "doccomment")), label="C02.d separators"))
     # C02.e / C02.c whole sequences from the initial state: cross-command state, walker event order, rendering order and kinds
     ks = ["function", "endfunction", "set", "cpp_class", "cpp_end_class", "cpp_member", "ct_add_test", "message", "cmake_parse_arguments", "macro", "endmacro", "cpp_attr", "option", "add_test"]
-    obs += seqs.seq_obligations("C02.e", ks[:8] if quick else ks, 3 if quick else 4, 1 if quick else 2, timeout=400 if quick else 2400)
+    if quick:
+        obs += seqs.seq_obligations("C02.e", ks[:8], 3, 1, timeout=400)
+    else:
+        # path budget: K^N x 2^N documented flags x well-formed fraction; 8 kinds x N=4 and 14 kinds x N=3 each fit in ~20 min on 16 cores
+        obs += seqs.seq_obligations("C02.e", ks[:8], 4, 2, timeout=2400)
+        obs += seqs.seq_obligations("C02.e", ks, 3, 1, timeout=2400)
     # long files: 40 (thorough: 120) concrete documented commands of mixed kinds, then symbolic ones
     mix = [('set', True), ('option', True), ('message', True), ('add_test', True), ('function', True), ('endfunction', False)]
     pre = [mix[i % len(mix)] for i in range(42 if quick else 120)]
